@@ -74,15 +74,33 @@ ensures(c, "wf", lambda result: And(wf_fee(result[0]), wf_fee(result[1])))
 # field on the LEFT of the operator:  x OP c
 # D18: for c = 2^64-1 the set {x | x != c} has maximum c-1, the code answers c (top) -- listed finding, see DESIGN §9
 _D18 = {"D18": lambda compared_value: compared_value.value == M}
+
+
+def sound_bound(bound, pred, extra=()):
+    smp = _sample(bound, extra)
+    return Or(bound.is_unknown, forall(T.Int, lambda x: Implies(And(u64(x), pred(x)), x <= bound.value), sample=smp))
+
+
+def _pred_true(ins, c):
+    return lambda x: cmp_sem(ins, x, c)
+
+
+def _pred_false(ins, c):
+    return lambda x: Or(Not(cmp_sem(ins, x, c)), Not(IsInstance(ins, SIXOPS)))
+
+
+ensures(c, "true_sound_left", lambda comparison_ins, compared_value, result:
+        Implies(And(Not(compared_value.is_unknown), u64(compared_value.value)),
+                sound_bound(result[0], _pred_true(comparison_ins, compared_value.value), [compared_value.value])))
+ensures(c, "false_sound_left", lambda comparison_ins, compared_value, result:
+        Implies(And(Not(compared_value.is_unknown), u64(compared_value.value)),
+                sound_bound(result[1], _pred_false(comparison_ins, compared_value.value), [compared_value.value])))
 ensures(c, "true_exact_left", lambda comparison_ins, compared_value, result:
         Implies(And(Not(compared_value.is_unknown), u64(compared_value.value)),
-                tight_bound(result[0], lambda x: cmp_sem(comparison_ins, x, compared_value.value),
-                            [compared_value.value])), known=_D18)
+                tight_bound(result[0], _pred_true(comparison_ins, compared_value.value), [compared_value.value])), known=_D18)
 ensures(c, "false_exact_left", lambda comparison_ins, compared_value, result:
         Implies(And(Not(compared_value.is_unknown), u64(compared_value.value)),
-                tight_bound(result[1], lambda x: Or(Not(cmp_sem(comparison_ins, x, compared_value.value)),
-                                                    Not(IsInstance(comparison_ins, SIXOPS))),
-                            [compared_value.value])), known=_D18)
+                tight_bound(result[1], _pred_false(comparison_ins, compared_value.value), [compared_value.value])), known=_D18)
 
 
 def _reify_max_value(mv, ob):
@@ -119,22 +137,37 @@ ensures(c, "false_sound", lambda key, ins_stack_value, result, v:
                 Or(result[1].is_unknown, keyfld(v, key) <= result[1].value)), tags=["C09", "C01"])
 
 
+def _arg(sv, i):
+    from pyvc.values import V as _V
+    if isinstance(sv, _V):
+        return sv.args[i]
+    return sv.args[i] if len(sv.args) > i else None
+
+
 def _direct(key, sv, field_pos):
     """sv = `a0 OP a1` with a_{field_pos} a read of the key's field and the other operand a readable int literal."""
-    a0, a1 = sv.args[0], sv.args[1]
+    a0, a1 = _arg(sv, 0), _arg(sv, 1)
     fa, ca = (a0, a1) if field_pos == 0 else (a1, a0)
     return And(IsInstance(sv.instruction, SIXOPS), IsInstance(a0, "KnownStackValue"), IsInstance(a1, "KnownStackValue"),
                is_field_read(key, fa), Not(is_field_read(key, ca)))
 
 
+def _d18_sv(ins_stack_value):
+    """D18 seen from the caller: one operand is the literal 2^64-1"""
+    def lit_m(x):
+        i = _known_ins(x)
+        return And(IsInstance(x, "KnownStackValue"), has_int_lit(i), int_lit(i) == M) if i is not None else False
+    return Or(lit_m(_arg(ins_stack_value, 0)), lit_m(_arg(ins_stack_value, 1)))
+
+
 ensures(c, "exact_field_left", lambda key, ins_stack_value, result: _exact(key, ins_stack_value, result, 0),
-        tags=["C09", "C03"])
+        tags=["C09", "C03"], known={"D18": _d18_sv})
 ensures(c, "exact_field_right", lambda key, ins_stack_value, result: _exact(key, ins_stack_value, result, 1),
-        tags=["C09", "C03"])
+        tags=["C09", "C03"], known={"D18": _d18_sv})
 
 
 def _exact(key, sv, result, pos):
-    a0, a1 = sv.args[0], sv.args[1]
+    a0, a1 = _arg(sv, 0), _arg(sv, 1)
     ca = a1 if pos == 0 else a0
     cins = _known_ins(ca)
     cval = int_lit(cins)
